@@ -266,3 +266,19 @@ package layer
 //@   taggedonly
 //@   requires l != nil && l.blob != nil && l.blob.Blob != nil
 //@   ensures[C13] gocount() == 0
+
+// ---- C07: opaque directories ----
+// A directory is reported opaque exactly when the layer carries the opaque marker ".wh..wh..opq" in it, and only then does
+// Getxattr answer one of the configured overlay opaque xattr names (with the value "y", or the needed size and ERANGE for
+// a short buffer); for a directory without the marker those names are answered like any other attribute.
+//@ func (n *node) isOpaque
+//@   props C07
+//@   requires n.fs != nil && n.fs.r != nil
+//@   modifies nothing
+//@   ensures[C07] result == !childErr(mdRef(payload(n.fs.r)), n.id, whiteoutOpaqueDir)
+//@ func (n *node) Getxattr
+//@   props C07
+//@   requires n.fs != nil && n.fs.r != nil
+//@   loop 0 invariant[C07] forall j int :: 0 <= j && j <= rangeidx ==> !(attr == rangeslice[j] && opq)
+//@   ensures[C07] !childErr(mdRef(payload(n.fs.r)), n.id, whiteoutOpaqueDir) && (exists j int :: 0 <= j && j < len(n.fs.opaqueXattrs) && attr == n.fs.opaqueXattrs[j]) ==> (result1 == 0 && len(dest) >= len(opaqueXattrValue) && result0 == len(opaqueXattrValue)) || (result1 == syscall.ERANGE && len(dest) < len(opaqueXattrValue) && result0 == len(opaqueXattrValue))
+//@   ensures[C07] childErr(mdRef(payload(n.fs.r)), n.id, whiteoutOpaqueDir) && !(attr in n.attr.Xattrs) ==> result1 == syscall.ENODATA
